@@ -1,6 +1,7 @@
 package props
 
 import (
+	"strconv"
 	"fmt"
 	"sort"
 	"strings"
@@ -246,6 +247,14 @@ func init() {
 			}
 		case "name":
 			bad, _, _, ok := c20Inject(toks, pos, src, cs)
+			if strings.HasPrefix(cs.What, "broken:") {
+				// one of every kind of parse failure, after the template's own text
+				k, _ := strconv.Atoi(cs.What[len("broken:"):])
+				bad, ok = src+"\n"+c17Broken[k%len(c17Broken)], true
+				if r := c.SB.Do(&sb.Req{Op: "parse", Env: "raw", Entry: src}); r.Status != "ok" {
+					bad = "first line\n" + c17Broken[k%len(c17Broken)]
+				}
+			}
 			if !ok {
 				return nil
 			}
@@ -360,6 +369,9 @@ func init() {
 			cs := &c20Case{C14: s, Tpl: tpl, Kind: "name", Via: rapid.SampledFrom([]string{"direct", "include", "extends", "import"}).Draw(t, "via"), What: "illegal:!"}
 			if len(ins) > 0 {
 				cs.At = rapid.SampledFrom(ins).Draw(t, "at")
+			}
+			if rapid.Bool().Draw(t, "brokenkind") {
+				cs.What = "broken:" + strconv.Itoa(rapid.IntRange(0, len(c17Broken)-1).Draw(t, "bk"))
 			}
 			return cs
 		})
